@@ -1,9 +1,238 @@
-/- C04 — placeholder while the harness is brought up; replaced by the real theorems -/
+/-
+C04 — NNX transforms keep Python reference semantics: same result and state as eager.
+
+Property theorems over `Flax/Model/NnxProtocol.lean` (the four-step `update_context` protocol of
+flax/nnx/graph.py, `extract.to_tree / from_tree`, jit / remat / cond / switch / fori_loop / while_loop /
+cached_partial) on the explicit heap of `Heap.lean` and the graph model of `Graph.lean` (C03).  Heavy lemmas live
+in `Flax/Proofs/Nnx*.lean`: the simulation of `flatten` + `outer_index` stamps by `unflatten` with
+`outer_index_outer_ref` (`simO`, which generalises C03's `sim`), the invariance of DSL programs under heap
+isomorphism (`runFn_sim`), and the assembly (`proto_refines_eager`).
+
+Reading guide
+* the caller's heap is `h`; `runFn f h args` is `f(*args)` as plain Python; `jitCall / rematCall / switchCall /
+  condCall / foriCall / whileCall` are the calls under the transform;
+* `IsoM h2 r h4 r' ψ`: the rooted heaps are isomorphic via the injective address map `ψ` (objects compared as
+  Python objects: class and attribute MAP, Variable type / value / metadata);
+* "the caller's own objects carry the changes" is `ψ a = some c → a < h.length → c = a`: every object that existed
+  before the call is mapped to ITSELF; objects created by the function are mapped to new addresses.
+* the roots compared are `(cleared arguments, results)`: everything reachable from the arguments and the results
+  after the call.  An object the function detached from the arguments is outside the statement (the outer merge
+  never sees it) -- see SPEC['assumptions'] of harness/props/c04.py.
+-/
+import Flax.Model.Heap
+import Flax.Model.Graph
 import Flax.Model.NnxProtocol
+import Flax.Proofs.NnxRel
+import Flax.Proofs.NnxSim
+import Flax.Proofs.NnxProg
+import Flax.Proofs.NnxJit
+import Flax.Proofs.NnxCond
 
 namespace Flax.C04
 open Flax.Heap Flax.Graph Flax.Nnx
 
-theorem wrap32_small : wrap32 5 = 5 := by decide
+/-- what "same effect as eager, on the caller's own objects" means for a call on the heap `h` with arguments `args`:
+eager outcome `(rets, h2)`, outcome under the transform `(outs, h4)` -/
+structure RefinesEager (h : Heap) (args rets : List PVal) (h2 : Heap) (outs : List PVal) (h4 : Heap)
+    (ψ : Addr → Option Addr) : Prop where
+  /-- everything reachable from (arguments, results) is isomorphic: values, attributes, aliasing, cycles -/
+  iso : IsoM h2 (.seq true (args.map clearArg ++ rets)) h4 (.seq true (args.map clearArg ++ outs)) ψ
+  /-- it is the caller's own objects that carry the changes; created objects are new on both sides -/
+  ident : ∀ (a c : Nat), ψ a = some c → (a < h.length → c = a) ∧ (h.length ≤ a → h.length ≤ c)
+  /-- the caller's objects the call does not reach are untouched -/
+  frame : ∀ (c : Nat), c < h.length → (∀ (a : Nat), ψ a ≠ some c) → h4[c]? = h[c]?
+  /-- nothing of the caller's heap disappears -/
+  grows : h.length ≤ h4.length
+
+private theorem refines_of_proto {raw : Bool} {f : Fn} {h : Heap} {args rets : List PVal} {h2 : Heap}
+    (he : runFn f h args = .ok (rets, h2)) {roots4 : List PVal} {h4 : Heap}
+    (hp : protoCall raw f h args = .ok (roots4, h4)) :
+    ∃ ψ, RefinesEager h args rets h2 (roots4.drop args.length) h4 ψ := by
+  obtain ⟨ψ, hiso, hid, hfr, hgr, hargs⟩ := proto_refines_eager raw f h args rets h2 he roots4 h4 hp
+  have hroot : ValsRel ψ (args.map clearArg ++ rets) roots4 := by
+    cases hiso.root with
+    | seq hs => exact hs
+  obtain ⟨h1, _⟩ := valsRel_split hroot
+  simp only [List.length_map] at h1
+  have htake : roots4.take args.length = args.map clearArg :=
+    valsRel_id_eq h1 (fun a c ha hac => (hid a c hac).1 (hargs a ha))
+  have hsplit : roots4 = args.map clearArg ++ roots4.drop args.length := by
+    rw [← htake]; exact (List.take_append_drop _ _).symm
+  exact ⟨ψ, ⟨by rw [← hsplit]; exact hiso, hid, hfr, hgr⟩⟩
+
+/-! ## jit / remat -/
+
+/-- **`nnx.jit(f)(*args)` has the same effect as `f(*args)`.**  For every heap, every argument tuple (arguments may
+alias each other in any way), every body of the mutation DSL (reads, Variable updates, attribute add / delete /
+re-bind, new nodes and Variables, new aliasing): if the eager call returns `(rets, h2)` and the call under `jit`
+returns `(outs, h4)`, then everything reachable from (arguments, results) is isomorphic, the isomorphism is the
+identity on every object of the caller, and objects created by the function are fresh on both sides. -/
+theorem jit_refines_eager (f : Fn) (h : Heap) (args rets : List PVal) (h2 : Heap)
+    (he : runFn f h args = .ok (rets, h2)) (outs : List PVal) (h4 : Heap)
+    (hj : jitCall f h args = .ok (outs, h4)) : ∃ ψ, RefinesEager h args rets h2 outs h4 ψ := by
+  unfold jitCall at hj
+  split at hj
+  · cases hj
+  · next roots4 h4' hp =>
+    simp at hj; obtain ⟨rfl, rfl⟩ := hj
+    exact refines_of_proto he hp
+
+/-- the same for `nnx.remat` (`split_inputs ∘ jax.checkpoint ∘ merge_inputs`: VariableState leaves) -/
+theorem remat_refines_eager (f : Fn) (h : Heap) (args rets : List PVal) (h2 : Heap)
+    (he : runFn f h args = .ok (rets, h2)) (outs : List PVal) (h4 : Heap)
+    (hj : rematCall f h args = .ok (outs, h4)) : ∃ ψ, RefinesEager h args rets h2 outs h4 ψ := by
+  unfold rematCall at hj
+  split at hj
+  · cases hj
+  · next roots4 h4' hp =>
+    simp at hj; obtain ⟨rfl, rfl⟩ := hj
+    exact refines_of_proto he hp
+
+/-- consequences spelled out: after the call, every attribute path from (arguments, results) resolves alike under
+the transform and eagerly, and two paths reach ONE object under the transform iff they do eagerly (aliasing,
+including new aliasing made by the function, ends up identical) -/
+theorem refines_paths {h : Heap} {args rets : List PVal} {h2 : Heap} {outs : List PVal} {h4 : Heap}
+    {ψ : Addr → Option Addr} (r : RefinesEager h args rets h2 outs h4 ψ) (p q : Path) (a b : Nat)
+    (hp : resolve h2 (.seq true (args.map clearArg ++ rets)) p = some (.ref a))
+    (hq : resolve h2 (.seq true (args.map clearArg ++ rets)) q = some (.ref b)) :
+    ∃ (a' b' : Nat), resolve h4 (.seq true (args.map clearArg ++ outs)) p = some (.ref a') ∧
+      resolve h4 (.seq true (args.map clearArg ++ outs)) q = some (.ref b') ∧ (a = b ↔ a' = b') ∧
+      (a < h.length → a' = a) := by
+  rcases resolveM_corr r.iso p r.iso.root with ⟨e, _⟩ | ⟨v, v', e1, e2, hv⟩
+  · rw [hp] at e; cases e
+  rcases resolveM_corr r.iso q r.iso.root with ⟨e, _⟩ | ⟨w, w', f1, f2, hw⟩
+  · rw [hq] at e; cases e
+  rw [hp] at e1; cases e1
+  rw [hq] at f1; cases f1
+  cases hv with
+  | ref ha =>
+    cases hw with
+    | ref hb =>
+      rename_i a' b'
+      refine ⟨a', b', e2, f2, ⟨?_, ?_⟩, fun hlt => (r.ident a a' ha).1 hlt⟩
+      · intro e; subst e; rw [ha] at hb; exact Option.some.inj hb
+      · intro e; subst e; exact r.iso.inj _ _ _ ha hb
+
+/-! ## aliasing across arguments -/
+
+/-- **inputs that alias each other across arguments are one object inside, not duplicated.**  The inner merge
+(step 2, the objects the traced function sees) builds an isomorphic copy of the WHOLE argument tuple: two
+attribute paths -- through the same or through different arguments (`p = [.int i, …]` starts at argument `i`) --
+reach one object inside exactly when they reach one object of the caller. -/
+theorem alias_across_args_one_object (raw : Bool) (h : Heap) (args : List PVal) (gds : List GDef)
+    (fss : List FlatState) (idx1 : RefIndex) (hf : flattenRoots h args [] = .ok (gds, fss, idx1)) :
+    ∃ args' G ir,
+      unflattenRootsO (fun _ => Option.none) (gds.map (stampWith (fun _ => Option.none))) (fss.map (convLeaves raw)) [] [] =
+        .ok (args', G, ir) ∧
+      IsoM h (.seq true args) G (.seq true args') (phi idx1 ir) ∧
+      ∀ (p q : Path) (a b : Nat), resolve h (.seq true args) p = some (.ref a) → resolve h (.seq true args) q = some (.ref b) →
+        ∃ (a' b' : Nat), resolve G (.seq true args') p = some (.ref a') ∧ resolve G (.seq true args') q = some (.ref b') ∧
+          (a = b ↔ a' = b') := by
+  obtain ⟨args', G, ir, hu, Gd, R, hv, _⟩ := inner_copy raw hf
+  have iso : IsoM h (.seq true args) G (.seq true args') (phi idx1 ir) := ⟨.seq hv, R.inj, R.obj⟩
+  refine ⟨args', G, ir, hu, iso, ?_⟩
+  intro p q a b hp hq
+  rcases resolveM_corr iso p iso.root with ⟨e, _⟩ | ⟨v, v', e1, e2, hv1⟩
+  · rw [hp] at e; cases e
+  rcases resolveM_corr iso q iso.root with ⟨e, _⟩ | ⟨w, w', f1, f2, hw⟩
+  · rw [hq] at e; cases e
+  rw [hp] at e1; cases e1
+  rw [hq] at f1; cases f1
+  cases hv1 with
+  | ref ha =>
+    cases hw with
+    | ref hb =>
+      rename_i a' b'
+      refine ⟨a', b', e2, f2, ?_, ?_⟩
+      · intro e; subst e; rw [ha] at hb; exact Option.some.inj hb
+      · intro e; subst e; exact iso.inj _ _ _ ha hb
+
+/-! ## cond / switch -/
+
+/-- **`nnx.switch` (and `nnx.cond`) have the same effect as running the selected branch eagerly.**  Whenever the call
+is accepted (all branches traced, equal output structures: A-COND), the outcome refines the eager run of branch
+`clampIndex index` exactly as for `jit`. -/
+theorem cond_switch_refine (fs : List Fn) (index : Int) (h : Heap) (args : List PVal) (outs : List PVal) (h4 : Heap)
+    (hs : switchCall fs index h args = .ok (outs, h4)) :
+    ∃ f, fs[clampIndex index fs.length]? = some f ∧
+      ∀ (rets : List PVal) (h2 : Heap), runFn f h args = .ok (rets, h2) → ∃ ψ, RefinesEager h args rets h2 outs h4 ψ := by
+  obtain ⟨f, roots4, hf, hp, rfl⟩ := switchCall_inv hs
+  exact ⟨f, hf, fun rets h2 he => refines_of_proto he hp⟩
+
+/-- `nnx.cond(pred, t, f, *operands)`: the true branch when `pred`, else the false branch -/
+theorem cond_refine (t f : Fn) (pred : Bool) (h : Heap) (args : List PVal) (outs : List PVal) (h4 : Heap)
+    (hs : condCall t f pred h args = .ok (outs, h4)) (rets : List PVal) (h2 : Heap)
+    (he : runFn (if pred then t else f) h args = .ok (rets, h2)) : ∃ ψ, RefinesEager h args rets h2 outs h4 ψ := by
+  unfold condCall at hs
+  obtain ⟨g, hg, hall⟩ := cond_switch_refine [t, f] _ h args outs h4 hs
+  cases pred with
+  | true =>
+    simp [clampIndex] at hg; subst hg
+    exact hall rets h2 he
+  | false =>
+    simp [clampIndex] at hg; subst hg
+    exact hall rets h2 he
+
+/-- **a structure change that not every branch makes is rejected** (on both sides of the theorem above: such a
+call has no outcome under the transform): if all branches trace but two output graphdefs differ, the call
+returns `structureMismatch` and the caller's heap is not an output at all -/
+theorem switch_rejects_structure_change (fs : List Fn) (index : Int) (h : Heap) (args : List PVal)
+    (gds : List GDef) (lss : List (List Leaf)) (idx1 : RefIndex) (hs1 : step1 false h args = .ok (gds, lss, idx1))
+    (o : List ODef × List (List Leaf)) (os : List (List ODef × List (List Leaf)))
+    (htr : traceBranches gds lss fs = .ok (o :: os)) (o' : List ODef × List (List Leaf)) (hmem : o' ∈ os)
+    (hne : o'.1 ≠ o.1) : switchCall fs index h args = .error .structureMismatch :=
+  switchCall_mismatch hs1 htr hmem hne
+
+/-! ## non-vacuity -/
+
+/-- `m = A(); m.w = Param(3); m.c = B(); m.c.w = m.w; m.c.p = m; m.s = 5` -/
+def exHeap : Heap :=
+  [ .node "A" [(.str "w", .ref 2), (.str "c", .ref 1), (.str "s", .static "i:5")],
+    .node "B" [(.str "w", .ref 2), (.str "p", .ref 0)],
+    .var ["Param", "Variable"] 3 [] ]
+
+/-- `def f(m, n): w = m.w; x = w.value; w.value = x + 1; v = Param(x * 2); n.new = v; k = B(); m.k = k; k.v = v;
+del m.s; return k, x` -/
+def exFn : Fn :=
+  { body := [.getAttr 0 (.str "w"), .readVar 2, .setVar 2 (.add (.reg 3) (.const 1)),
+             .newVar ["Param", "Variable"] (.mul (.reg 3) (.const 2)) [], .setAttr 1 (.str "new") 4,
+             .newNode "B", .setAttr 0 (.str "k") 5, .setAttr 5 (.str "v") 4, .delAttr 0 (.str "s")],
+    ret := [5, 3] }
+
+/-- eager: the caller's `m`, `m.c`, `m.w` are mutated in place, two objects are created -/
+example : (runFn exFn exHeap [.ref 0, .ref 1]).toOption =
+    some ([.ref 4, .array 3],
+      [ .node "A" [(.str "w", .ref 2), (.str "c", .ref 1), (.str "k", .ref 4)],
+        .node "B" [(.str "w", .ref 2), (.str "p", .ref 0), (.str "new", .ref 3)],
+        .var ["Param", "Variable"] 4 [], .var ["Param", "Variable"] 6 [], .node "B" [(.str "v", .ref 3)] ]) := by
+  decide
+
+/-- under `jit` (aliased arguments `m` and `m.c`): the SAME caller objects 0, 1, 2 carry the changes -/
+example : (jitCall exFn exHeap [.ref 0, .ref 1]).toOption =
+    some ([.ref 4, .array 3],
+      [ .node "A" [(.str "c", .ref 1), (.str "k", .ref 4), (.str "w", .ref 2)],
+        .node "B" [(.str "new", .ref 3), (.str "p", .ref 0), (.str "w", .ref 2)],
+        .var ["Param", "Variable"] 4 [], .var ["Param", "Variable"] 6 [], .node "B" [(.str "v", .ref 3)] ]) := by
+  decide
+
+/-- and under `remat` -/
+example : (rematCall exFn exHeap [.ref 0, .ref 1]).toOption = (jitCall exFn exHeap [.ref 0, .ref 1]).toOption := by
+  decide
+
+/-- the hypothesis of `alias_across_args_one_object`: the arguments `(m, m.c)` share `m.c`, `m.w`, and `m` itself -/
+example : (flattenRoots exHeap [.ref 0, .ref 1] []).toOption.map (fun r => r.2.2) = some [0, 1, 2] := by decide
+
+/-- value-only branches: `cond` is accepted and selects -/
+def exT : Fn := { body := [.getAttr 0 (.str "w"), .readVar 1, .setVar 1 (.add (.reg 2) (.const 1))], ret := [2] }
+def exF : Fn := { body := [.getAttr 0 (.str "w"), .readVar 1, .setVar 1 (.mul (.reg 2) (.const 2))], ret := [2] }
+
+example : (condCall exT exF false exHeap [.ref 0]).toOption.map (fun r => (r.1, r.2[2]?)) =
+    some ([.array 3], some (.var ["Param", "Variable"] 6 [])) := by decide
+
+/-- one branch adds an attribute: rejected -/
+def exS : Fn := { body := [.litStatic "i:1", .setAttr 0 (.str "z") 1, .data (.const 0)], ret := [2] }
+
+example : (match condCall exT exS true exHeap [.ref 0] with | .error e => some e | .ok _ => Option.none) =
+    some Err.structureMismatch := by decide
 
 end Flax.C04
